@@ -392,6 +392,21 @@ func classifyErr(v ssa.Value, b *ssa.BasicBlock, depth int) ErrClass {
 		switch CalleeFullName(x) {
 		case "fmt.Errorf", "errors.New":
 			return ErrNonNil
+		case "(context.Context).Err":
+			// ctx.Err() taken in the ctx.Done() case of a select is non-nil
+			for _, f := range Facts(b) {
+				if c, ok := f.Cmp(); ok && c.Op == token.EQL {
+					if ex, isEx := Resolve(c.X).(*ssa.Extract); isEx {
+						if sel, isSel := ex.Tuple.(*ssa.Select); isSel && ex.Index == 0 {
+							if k, isC := ConstInt(c.Y); isC && int(k) < len(sel.States) {
+								if dc, isCall := Resolve(sel.States[k].Chan).(*ssa.Call); isCall && CalleeFullName(dc) == "(context.Context).Done" {
+									return ErrNonNil
+								}
+							}
+						}
+					}
+				}
+			}
 		}
 	case *ssa.UnOp:
 		if x.Op == token.MUL {
